@@ -1,5 +1,6 @@
 import DadiVerif.Lemmas.Het
 import DadiVerif.Generated.Phi1D
+import DadiVerif.Lemmas.Theory
 /-!
 # C01 — one-population scheme: exact discrete moment laws (the provable core of the convergence property)
 
@@ -134,6 +135,25 @@ theorem C01_gamma_eff (gamma nu beta : ℚ) :
     Phi1D.dom_gammaEff gamma nu beta = gamma * nu * (4 * beta / (beta + 1)^2) ∧
     Phi1D.genic_gammaEff gamma nu beta = gamma * nu * (4 * beta / (beta + 1)^2) := by
   constructor <;> simp only [Phi1D.dom_gammaEff, Phi1D.genic_gammaEff] <;> ring
+
+/-! ### Theory side (continuum): what the scheme is aiming at -/
+
+/-- **Neutral theory**: under the equilibrium density θ/x, the expected number of sites at which i of n sampled chromosomes carry
+    the derived allele is θ/i — binomial sampling integrated over [0,1] (elementary Beta-integral by induction, over ℝ). -/
+theorem C01_theory_neutral_sfs (n i : ℕ) (hi : 1 ≤ i) (hin : i ≤ n) (θ : ℝ) :
+    ∫ x in (0:ℝ)..1, (n.choose i : ℝ) * x ^ i * (1 - x) ^ (n - i) * (θ / x) = θ / i :=
+  theory_neutral_sfs n i hi hin θ
+
+/-- …hence the density returned by `phi_1D_snm` (ν·θ0/x · 4β/(β+1)², cf. `C01_snm_closed`) gives ν·θ0·4β/(β+1)²/i -/
+theorem C01_theory_snm_sfs (n i : ℕ) (hi : 1 ≤ i) (hin : i ≤ n) (nu θ0 β : ℝ) :
+    ∫ x in (0:ℝ)..1, (n.choose i : ℝ) * x ^ i * (1 - x) ^ (n - i) * (nu * θ0 / x * (4 * β / (β + 1) ^ 2))
+      = nu * θ0 * (4 * β / (β + 1) ^ 2) / i :=
+  theory_snm_sfs n i hi hin nu θ0 β
+
+/-- the continuum heterozygosity of θ0/(κx) is θ0/(2κ): the value whose (1 − x₁) multiple is the scheme's exact fixed point
+    (`C01_het_limit`), so the scheme's stationary heterozygosity converges to theory as the first grid point goes to 0 -/
+theorem C01_theory_heterozygosity (θ0 κ : ℝ) : ∫ x in (0:ℝ)..1, x * (1 - x) * (θ0 / (κ * x)) = θ0 / (2 * κ) :=
+  theory_heterozygosity θ0 κ
 
 /-- non-vacuity: a 4-point grid from 0 to 1 satisfies the hypotheses of `C01_het_step` -/
 example : GridOk #[0, 1/4, 1/2, 1] ∧ (#[0, 1/4, 1/2, (1:ℚ)]).getD 0 0 = 0 ∧ (#[0, 1/4, 1/2, (1:ℚ)]).getD 3 0 = 1 := by
